@@ -79,7 +79,8 @@ def run_case(rs, ctx):
 
 
 def _run(rs, ctx):
-    lk = ["eg", "ucb"][ctx.index % 2]
+    lk = ["eg", "ucb", "ts", "sm"][ctx.index % 4]
+    randomised = lk in ("ts", "sm")
     labels = gen.pick(rs, ["int", "str", "float"])
     n_arms = int(rs.integers(2, 5))
     arms = list(gen.LABELS[labels][:n_arms])
@@ -139,17 +140,21 @@ def _run(rs, ctx):
                 Q.append(list(rows_X[int(rs.integers(len(rows_X)))])); kinds.append("stored")
             elif t == 1:
                 base = rows_X[int(rs.integers(first_len, len(rows_X)))] if len(rows_X) > first_len else rows_X[-1]
-                c_ = float(gen.pick(rs, [0.5, 2.0, 8.0, 0.125]))
+                c_ = float(gen.pick(rs, [0.5, 2.0, 8.0, 0.125, 2.0 ** 560, 2.0 ** -500, 2.0 ** 100]))  # any positive multiple
                 Q.append([c_ * v for v in base]); kinds.append("scaled_stored")
             elif t == 2:
                 Q.append([0.0] * d); kinds.append("zero")
             else:
                 Q.append([float(v) for v in rs.integers(-4, 5, d)]); kinds.append("random")
         wit["queries"] = Q
+        import copy as _copy
+        g_ = _copy.deepcopy(m._rng)
+        seeds1 = g_.randint(np.iinfo(np.int32).max, size=len(Q)) if randomised else [None] * len(Q)
+        m_scaled = _copy.deepcopy(m) if randomised else m  # same stream position for the scaled query of a randomised policy
         try:
             res = m.predict_expectations(np.asarray(Q, dtype=float))
-            scale = float(gen.pick(rs, [2.0, 0.25, 16.0]))
-            res_scaled = m.predict_expectations(scale * np.asarray(Q, dtype=float))
+            scale = float(gen.pick(rs, [2.0, 0.25, 16.0, 2.0 ** 520, 2.0 ** -480]))
+            res_scaled = m_scaled.predict_expectations(scale * np.asarray(Q, dtype=float))
         except Exception as ex:  # noqa: BLE001
             ctx.violation("predict_expectations raised %s: %s" % (type(ex).__name__, str(ex)[:80]), wit)
             return
@@ -172,7 +177,8 @@ def _run(rs, ctx):
             else:
                 if any(i >= first_len for i in idx):
                     feats.append("pfit_row_inside")
-                ref = MAB(list(m.arms), gen.make_lp(cfg["lp"]))
+                ref = MAB(list(m.arms), gen.make_lp(cfg["lp"])) if seeds1[j] is None else \
+                    MAB(list(m.arms), gen.make_lp(cfg["lp"]), seed=int(seeds1[j]))
                 ref.fit(np.asarray([rows_d[i] for i in idx]), np.asarray([rows_r[i] for i in idx], dtype=float))
                 want = ref.predict_expectations()
                 ok = same(got, want)
@@ -182,7 +188,12 @@ def _run(rs, ctx):
                                                                                 len(idx), idx[:12], want if isinstance(want, str) else dict(want)),
                               wit, kind="collision_set|" + ",".join(feats))
                 return
-            if not same(got, res_scaled[j]):
+            qs = scale * np.asarray(q, dtype=float)
+            representable = bool(np.all(np.isfinite(qs)) and all((v == 0) == (w == 0) for v, w in zip(q, qs)) and
+                                 all(abs(w) > 1e-280 or w == 0 for w in qs))
+            if not representable:
+                ctx.count("scaled_query_not_representable")
+            if representable and not same(got, res_scaled[j]):
                 ctx.violation("positive scaling changed the result: query %r -> %r but %g * query -> %r" % (
                     q, dict(got), scale, dict(res_scaled[j])), wit, kind="scaling")
                 return
